@@ -72,4 +72,113 @@ theorem psiblastWrite_project_text (m : Msa) (h : PsiblastTextWritable m) :
     rw [hx]
     exact hs.1
 
+/-! ## digital mode -/
+
+/-- the digital writer looks at `names`, `alen`, the digital rows and the consensus flags only -/
+theorem psiblastWrite_congr_dig (a : Abc) (m m' : Msa) (hn : m'.names = m.names) (ha : m'.alen = m.alen)
+    (hch : ∀ i, i < m.nseq → ∀ pos, pos < m.alen → psiChar (some a) m' i pos = psiChar (some a) m i pos) :
+    psiblastWrite (some a) m' = psiblastWrite (some a) m := by
+  have hns : m'.nseq = m.nseq := by simp [Msa.nseq, hn]
+  have hblk : ∀ pos ∈ blockStarts m.alen psiCpl,
+      psiBlockLines (some a) m' (maxWidth m.names) pos = psiBlockLines (some a) m (maxWidth m.names) pos := by
+    intro pos hpos
+    have hp := blockStarts_lt m.alen psiCpl pos hpos
+    unfold psiBlockLines
+    rw [hns, ha]
+    congr 1
+    apply List.map_congr_left
+    intro i hi
+    have hmap : (List.range (min 60 (m.alen - pos))).map (fun bpos => psiChar (some a) m' i (pos + bpos))
+        = (List.range (min 60 (m.alen - pos))).map (fun bpos => psiChar (some a) m i (pos + bpos)) := by
+      apply List.map_congr_left
+      intro b hb
+      exact hch i (List.mem_range.mp hi) (pos + b) (by have := List.mem_range.mp hb; omega)
+    unfold psiRowLine
+    simp only [hn, ha, psiAcpl, hmap]
+  unfold psiblastWrite psiblastLines
+  rw [hn, ha, flatMap_congr_phy _ _ _ hblk]
+
+/-- table fact about an alphabet: a residue code (other than pyrrolysine) is not written as `-` -/
+def psiDigResOk (a : Abc) : Bool :=
+  (List.range a.kp).all fun n =>
+    let x := UInt8.ofNat n
+    !(a.xIsResidue x && a.sym.getD x.toNat 0 != 79) || psiDigChar a x true != 45
+
+theorem psiDigResOk_amino : psiDigResOk abcAmino = true := by decide +kernel
+theorem psiDigResOk_dna : psiDigResOk abcDna = true := by decide +kernel
+theorem psiDigResOk_rna : psiDigResOk abcRna = true := by decide +kernel
+
+theorem psi_dig_res (a : Abc) (hr : psiDigResOk a = true) (x : UInt8) (hx : x.toNat < a.kp) (hc : psiDigCode a x = true)
+    (hres : a.xIsResidue x = true) : psiDigChar a x true ≠ 45 := by
+  have h1 := (List.all_eq_true.mp hr) x.toNat (List.mem_range.mpr hx)
+  have h79 : (a.sym.getD x.toNat 0 != 79) = true := by
+    unfold psiDigCode at hc
+    rw [hres, Bool.true_and, Bool.or_eq_true] at hc
+    rcases hc with hc | hc
+    · exact hc
+    · have hk : x.toNat = a.k := by simpa using hc
+      simp [Abc.xIsResidue, hk] at hres
+  simp only [UInt8.ofNat_toNat, hres, h79, Bool.and_self, Bool.not_true, Bool.false_or, bne_iff_ne, ne_eq] at h1
+  exact h1
+
+/-- the codes of a row of a `PsiblastDigitalWritable` alignment: `alen` of them, each below `kp` -/
+theorem psiDig_codes (a : Abc) (m : Msa) (h : PsiblastDigitalWritable a m) (i : Nat) (hi : i < m.nseq) :
+    (∀ x ∈ dsqCodes (some (m.ax.getD i [])), x.toNat < a.kp) ∧ (dsqCodes (some (m.ax.getD i []))).length = m.alen := by
+  cases hr : m.ax.getD i [] with
+  | nil => have := (h.row_ok i hi).1; rw [hr] at this; simp [dsqRowOk] at this
+  | cons s0 rest =>
+    have := (h.row_ok i hi).1; rw [hr] at this
+    simp only [dsqRowOk, Bool.and_eq_true, beq_iff_eq] at this
+    refine ⟨?_, ?_⟩
+    · intro x hx
+      have hall : (dsqCodes (some (s0 :: rest))).all (fun x => decide (x.toNat < a.kp)) = true := by
+        simpa [dsqCodes] using this.2
+      simpa using (List.all_eq_true.mp hall) x hx
+    · simp only [dsqCodes, List.drop_succ_cons, List.drop_zero, List.length_dropLast]
+      omega
+
+/-- **PSI-BLAST, digital mode: `write (project m) = write m`**: the re-read alignment carries the RF line
+    `psiRf (psiDigTxt a m) m` (`x` where some row holds a residue, `-` elsewhere) where the original may have none; in a
+    consensus column a residue is written upper case both times, and a non-residue is written `-` whatever the column is -/
+theorem psiblastWrite_project_digital (a : Abc) (ha : psiDigSymOk a = true) (hr : psiDigResOk a = true) (m : Msa)
+    (h : PsiblastDigitalWritable a m) :
+    psiblastWrite (some a) (psiblastProject (psiblastCfg (some a)) (psiRf (psiDigTxt a m) m) m) = psiblastWrite (some a) m := by
+  refine psiblastWrite_congr_dig a m (psiblastProject (psiblastCfg (some a)) (psiRf (psiDigTxt a m) m) m) rfl rfl ?_
+  intro i hi pos hpos
+  have hshape := dsqRow_shape _ _ _ (h.row_ok i hi).1
+  obtain ⟨hlt, hcl⟩ := psiDig_codes a m h i hi
+  have hpc : pos < (dsqCodes (some (m.ax.getD i []))).length := by rw [hcl]; exact hpos
+  have hax := axAt_codes m i pos _ hshape hpc
+  have hmem : axAt m i pos ∈ dsqCodes (some (m.ax.getD i [])) := by rw [hax]; exact getD_mem0 _ _ hpc
+  have hcode := (h.row_ok i hi).2 _ hmem
+  have hs := psi_dig_sym a ha _ (hlt _ hmem) hcode
+  have hax' : axAt (psiblastProject (psiblastCfg (some a)) (psiRf (psiDigTxt a m) m) m) i pos = axAt m i pos := by
+    simp [axAt, psiblastProject, psiblastCfg, Cfg.digital, List.getD_eq_getElem?_getD, hi, Msa.stored, h.dig]
+  have hc : isConsensusCol (some a) (psiblastProject (psiblastCfg (some a)) (psiRf (psiDigTxt a m) m) m) pos
+      = isAlnum (colX (psiDigTxt a m) m.nseq pos) := by
+    simp [isConsensusCol, psiblastProject, psiRf, List.getD_eq_getElem?_getD, hpos]
+  rw [psiChar_dig_eq, psiChar_dig_eq, hax', hc]
+  cases hres : a.xIsResidue (axAt m i pos) with
+  | false => simp [psiDigChar, hres]
+  | true =>
+    have hx : colX (psiDigTxt a m) m.nseq pos = 120 := by
+      unfold colX
+      have : (List.range m.nseq).any (fun i => (psiDigTxt a m i).getD pos 45 != 45) = true := by
+        rw [List.any_eq_true]
+        refine ⟨i, List.mem_range.mpr hi, ?_⟩
+        have hl : (psiDigTxt a m i).length = m.alen := by simp only [psiDigTxt, List.length_map]; exact hcl
+        rw [getD_default_irrel _ pos 45 0 (by rw [hl]; exact hpos)]
+        have htx : (psiDigTxt a m i).getD pos 0 = psiDigChar a (axAt m i pos) true := by
+          rw [hax]; exact getD_map0 _ _ _ hpc
+        rw [htx]
+        simpa using psi_dig_res a hr _ (hlt _ hmem) hcode hres
+      rw [if_pos this]
+    rw [hx]
+    have h120 : isAlnum 120 = true := by decide
+    rw [h120]
+    rcases h.col_ok pos hpos with hcc | hcc
+    · rw [hcc]
+    · have hk := hcc i hi
+      simp [Abc.xIsResidue, hk] at hres
+
 end EaselModel.Msafile
